@@ -1,0 +1,11 @@
+//go:build verif
+
+package mhprimary
+
+// VerifCurrentFile returns the number of the primary file being appended to
+// (verification-only accessor, build tag verif).
+func (mp *MultihashPrimary) VerifCurrentFile() uint32 {
+	mp.flushLock.Lock()
+	defer mp.flushLock.Unlock()
+	return mp.fileNum
+}
